@@ -13,6 +13,14 @@ against the document limit: the limit handed to the runner for a test case is
 `min(per-test limit, document limit − (time elapsed before + its own wait))`
 (`C14_wait_counts`, `C14_limits_honest`). `busy cmds tcs idx` adds up the waits and the command
 durations of `tcs`.
+
+The wait is sat out no longer than what is left of the document limit (`cappedWait`, `startOf`):
+the runner of a test case reached at time `now` is called at `min (now + wait) (max now L)` under a
+document limit `L` (`C14_wait_capped`). `clockTrace` lists the start and end time of every runner
+call of the loop (`C14_clock_is_loop` ties it to `execLoop`); with a runner that is back by the time
+its limit is up the clock of a document never passes `L` (`C14_clock_within_document_limit`). What
+is left of `L` after the capped wait is what is left after the whole wait, so results, outputs and
+limits are those of the loop with uncapped waits (`C14_cap_changes_only_time`).
 -/
 namespace Scrut.Props.C14
 open Scrut.Exec
@@ -64,11 +72,13 @@ theorem C14_first_limit (total : Option Nat) (runner : Runner) (tc : TC) (rest :
       some (effective tc.timeout ((totalLimit total).map (· - tc.wait))).2 :=
   Scrut.Exec.first_limit total runner tc rest
 
-/-- **C14** (the wait counts, fix 5800e20), one step of the loop for ANY runner: the limit handed
-to the runner for the head test case `tc` reached at time `now` is
-`effective tc.timeout (limit − (now + tc.wait))`; when the command completes (exit code other than
-the skip code, or detached) the loop goes on with the clock at `now + tc.wait + elapsed`; when the
-runner reports a timeout the loop ends with it, attributed to the document iff `effective` says so. -/
+/-- **C14** (the wait counts, fix 5800e20; it is capped by the document limit), one step of the
+loop for ANY runner: the limit handed to the runner for the head test case `tc` reached at time
+`now` is `effective tc.timeout (limit − (now + tc.wait))`; when the command completes (exit code
+other than the skip code, or detached) the loop goes on with the clock at
+`startOf limit tc now + elapsed` (CHANGED with the cap: was `now + tc.wait + elapsed`; `startOf` is
+spelled out by `C14_wait_capped`); when the runner reports a timeout the loop ends with it,
+attributed to the document iff `effective` says so. -/
 theorem C14_wait_counts (limit : Option Nat) (runner : Runner) (tc : TC) (rest : List TC)
     (idx now : Nat) (acc : List Out) (limits : List (Option Nat)) :
     let eff := effective tc.timeout (limit.map (· - (now + tc.wait)))
@@ -76,16 +86,84 @@ theorem C14_wait_counts (limit : Option Nat) (runner : Runner) (tc : TC) (rest :
     (execLoop limit runner (tc :: rest) idx now acc limits).2[limits.length]? = some eff.2 ∧
     (∀ c, r.1.status = .code c → c ≠ skipCodeOf tc →
       execLoop limit runner (tc :: rest) idx now acc limits =
-        execLoop limit runner rest (idx + 1) (now + tc.wait + r.2) (acc ++ [r.1])
+        execLoop limit runner rest (idx + 1) (startOf limit tc now + r.2) (acc ++ [r.1])
           (limits ++ [eff.2])) ∧
     (r.1.status = .detached →
       execLoop limit runner (tc :: rest) idx now acc limits =
-        execLoop limit runner rest (idx + 1) (now + tc.wait + r.2) (acc ++ [detachedOut])
+        execLoop limit runner rest (idx + 1) (startOf limit tc now + r.2) (acc ++ [detachedOut])
           (limits ++ [eff.2])) ∧
     (r.1.status = .timeout →
       execLoop limit runner (tc :: rest) idx now acc limits =
         (.timeout eff.1 idx (acc ++ [r.1]), limits ++ [eff.2])) :=
   Scrut.Exec.wait_counts limit runner tc rest idx now acc limits
+
+/-- **C14** (the wait is capped): the runner of a test case that the loop reaches at time `now` is
+called at `now + wait`, but under a document limit `l` not after `max now l`: a wait never moves
+the clock past the document limit (a clock that is already past it — a runner that came back late
+— does not move at all). In particular the start is `≤ l` whenever `now ≤ l`, it is `now + wait`
+whenever that is `≤ l`, and the limit then handed to the runner is the smaller of the per-test limit
+and `l − start` (which is the `l − (now + wait)` of `C14_wait_counts`, saturating). -/
+theorem C14_wait_capped (limit : Option Nat) (tc : TC) (now : Nat) :
+    startOf limit tc now =
+      (match limit with
+       | some l => min (now + tc.wait) (max now l)
+       | none => now + tc.wait) ∧
+    (∀ l, limit = some l → startOf limit tc now ≤ max now l) ∧
+    (∀ l, limit = some l → now + tc.wait ≤ l → startOf limit tc now = now + tc.wait) ∧
+    effective tc.timeout (limit.map (· - startOf limit tc now)) =
+      effective tc.timeout (limit.map (· - (now + tc.wait))) := by
+  refine ⟨Scrut.Exec.startOf_spec limit tc now, ?_, ?_, by rw [Scrut.Exec.sub_startOf]⟩
+  · rintro l rfl
+    rw [Scrut.Exec.startOf_spec]
+    exact Nat.min_le_right _ _
+  · rintro l rfl h
+    rw [Scrut.Exec.startOf_spec]
+    show min (now + tc.wait) (max now l) = now + tc.wait
+    omega
+
+/-- `clockTrace` — `(start, end)` of every runner call — is the clock of `execLoop`: one entry per
+runner call, and the limit handed over at the `d`-th call is
+`min(per-test limit, document limit − d-th start)`. -/
+theorem C14_clock_is_loop (limit : Option Nat) (runner : Runner) (tcs : List TC)
+    (idx now : Nat) (acc : List Out) (limits : List (Option Nat)) :
+    (execLoop limit runner tcs idx now acc limits).2 =
+      limits ++ (tcs.zip (clockTrace limit runner tcs idx now)).map
+        (fun p => (effective p.1.timeout (limit.map (· - p.2.1))).2) :=
+  Scrut.Exec.clockTrace_limits limit runner tcs idx now acc limits
+
+/-- shape of the trace, ANY runner: the first call is started at `startOf limit tc now`, ends
+`elapsed` later, and the trace goes on from that end (or stops there). -/
+theorem C14_clock_step (limit : Option Nat) (runner : Runner) (tc : TC) (rest : List TC)
+    (idx now : Nat) :
+    ∃ e tl, clockTrace limit runner (tc :: rest) idx now = (startOf limit tc now, e) :: tl ∧
+      e = startOf limit tc now +
+        (runner idx (effective tc.timeout (limit.map (· - startOf limit tc now))).2).2 ∧
+      (tl = [] ∨ tl = clockTrace limit runner rest (idx + 1) e) :=
+  Scrut.Exec.clockTrace_head limit runner tc rest idx now
+
+/-- **C14** (a document stops once its limit has elapsed, waits included): under a document limit
+`L` and a runner that is back by the time its limit is up (`Punctual`; `honest cmds` is), no
+runner call of the document starts or ends after `L` on the document's clock — whatever the waits,
+the per-test limits and the outcomes are. Before the cap a `wait` longer than what was left of `L`
+was sat out in full and the call started (and ended) after `L`. -/
+theorem C14_clock_within_document_limit (total : Option Nat) (runner : Runner)
+    (hp : Punctual runner) (tcs : List TC) (L : Nat) (hL : totalLimit total = some L) :
+    ∀ se ∈ clockTrace (totalLimit total) runner tcs 0 0, se.1 ≤ se.2 ∧ se.2 ≤ L := by
+  intro se hse
+  rw [hL] at hse
+  exact (Scrut.Exec.clockTrace_within L runner hp tcs 0 0 (Nat.zero_le _) se hse).2
+
+theorem C14_honest_punctual (cmds : Nat → Nat × Out) : Punctual (honest cmds) :=
+  Scrut.Exec.honest_punctual cmds
+
+/-- **C14** (the cap changes the time that passes and nothing else): result, outputs, attribution
+of a timeout and every limit handed to the runner are those of the loop that sits every wait out
+in full (`execLoopUncapped`), for every runner. -/
+theorem C14_cap_changes_only_time (limit : Option Nat) (runner : Runner) (tcs : List TC)
+    (idx now : Nat) (acc : List Out) (limits : List (Option Nat)) :
+    execLoop limit runner tcs idx now acc limits =
+      execLoopUncapped limit runner tcs idx now acc limits :=
+  Scrut.Exec.execLoop_eq_uncapped limit runner tcs idx now acc limits
 
 /-- **C14** (every limit, honest runner): the limit handed to the runner for test case `d` is
 `min(per-test limit, document limit − (waits and durations of the test cases before + its own
@@ -179,6 +257,30 @@ example :
     (execAll (some 1000) (honest (fun _ => (5, ⟨.code 0, true, true⟩)))
       [⟨none, .stdout, none, none, true, 3000⟩]) =
       (.timeout true 0 [⟨.timeout, false, false⟩], [some 0]) := by
+  decide
+
+/-! Non-vacuity of `C14_wait_capped` / `C14_clock_within_document_limit`: document limit 1 s, a
+5 ms command behind a wait of 3 s, then a 5 ms command. The wait alone exceeds the limit: it is
+sat out for 1 s, the runner is called at 1000 ms (not at 3000 ms) with 0 ms left, is stopped at
+once, the timeout is attributed to the document, the second test case is skipped. -/
+example :
+    startOf (some 1000) ⟨none, .stdout, none, none, true, 3000⟩ 0 = 1000 ∧
+    clockTrace (totalLimit (some 1000)) (honest (fun _ => (5, ⟨.code 0, true, true⟩)))
+      [⟨none, .stdout, none, none, true, 3000⟩, ⟨none, .stdout, none, none, true, 0⟩] 0 0
+      = [(1000, 1000)] ∧
+    execAll (some 1000) (honest (fun _ => (5, ⟨.code 0, true, true⟩)))
+      [⟨none, .stdout, none, none, true, 3000⟩, ⟨none, .stdout, none, none, true, 0⟩]
+      = (.timeout true 0 [⟨.timeout, false, false⟩], [some 0]) ∧
+    runDocument [⟨none, .stdout, none, none, true, 3000⟩, ⟨none, .stdout, none, none, true, 0⟩]
+      (.timeout true 0 [⟨.timeout, false, false⟩]) = [(0, .timeout), (1, .skipped)] := by
+  decide
+
+/-! ... and a wait that fits is sat out in full, also after time has passed: 200 ms command, then
+wait 500 ms + 100 ms command under 1 s: calls at 0–200 and 700–800. -/
+example :
+    clockTrace (totalLimit (some 1000)) (honest (fun i => (if i = 0 then 200 else 100, ⟨.code 0, true, true⟩)))
+      [⟨none, .stdout, none, none, true, 0⟩, ⟨none, .stdout, none, none, true, 500⟩] 0 0
+      = [(0, 200), (700, 800)] := by
   decide
 
 /-! Non-vacuity: per-test 5 s, document 1 s, command 3 s → timeout attributed to the document. -/
